@@ -73,3 +73,12 @@ MUTANTS += [
     dict(id="c14-early", props=["C14"], file="task.py", old="            if when <= now:\n                # pull it off", new="            if when <= now + 0.25:\n                # pull it off"),
     dict(id="c14-deferred-reversed", props=["C14"], file="core.py", old="                fnlist = deferredFns\n                deferredFns = []\n\n                # call the functions\n                for fn, args, kwargs in fnlist:\n                    if _debug: run_once", new="                fnlist = deferredFns[::-1]\n                deferredFns = []\n\n                # call the functions\n                for fn, args, kwargs in fnlist:\n                    if _debug: run_once"),
 ]
+
+MUTANTS += [
+    # ---- C19
+    dict(id="c19-no-displacement", props=["C19"], file="netservice.py", old="        # remove the dnets from other router(s) and paths\n        if other_routers:", new="        # remove the dnets from other router(s) and paths\n        if other_routers and False:"),
+    dict(id="c19-renumber-forgets-paths", props=["C19"], file="netservice.py", old="                self.path_info[(new_snet, dnet)] = self.path_info.pop((old_snet, dnet))", new="                self.path_info.pop((old_snet, dnet))"),
+    dict(id="c19-delete-keeps-dnets", props=["C19"], file="netservice.py", old="                    del router_info.dnets[dnet]\n                    del self.path_info[(snet, dnet)]\n                    if _debug: RouterInfoCache._debug(\"    - del path: %r -> %r via %r\", snet, dnet, router_info.address)\n                if not router_info.dnets:\n                    del self.routers[snet][address]", new="                    del self.path_info[(snet, dnet)]\n                    if _debug: RouterInfoCache._debug(\"    - del path: %r -> %r via %r\", snet, dnet, router_info.address)\n                if not router_info.dnets:\n                    del self.routers[snet][address]"),
+    dict(id="c19-sadr-uses-dadr", props=["C19"], file="netservice.py", old="self.router_info_cache.update_router_info(adapter.adapterNet, npdu.pduSource, [snet])", new="self.router_info_cache.update_router_info(adapter.adapterNet, npdu.pduDestination, [snet])"),
+    dict(id="c19-existing-keeps-old-path", props=["C19"], file="netservice.py", old="                if dnet not in existing_router_info.dnets:\n                    self.path_info[(snet, dnet)] = existing_router_info", new="                if dnet not in existing_router_info.dnets and len(existing_router_info.dnets) < 2:\n                    self.path_info[(snet, dnet)] = existing_router_info"),
+]
